@@ -95,7 +95,14 @@ func weaken(r *core.Rand, v cty.Value, o WeakenOpts, path string, top bool, rec 
 					continue
 				}
 				u := AdmittingUnknown(r, e, o.Refined, false)
-				if u.IsKnown() {
+				if ety := e.Type(); !ety.IsPrimitiveType() && !e.IsNull() && r.Bool() {
+					// a copy of the member with nested parts replaced: partly unknown, may coincide with the original
+					o2 := o
+					o2.Pct, o2.ForceTop, o2.Dynamic = 40, false, false
+					var sub []Weakening
+					u = weaken(r, e, o2, fmt.Sprintf("%s{+}", path), false, &sub)
+				}
+				if u.IsWhollyKnown() {
 					continue
 				}
 				es = append(es, u)
